@@ -19,22 +19,6 @@ theorem mkAction_machine (act : Action) (mi tmo dur : Nat) : (mkAction act mi tm
 theorem mkAction_projects (act : Action) (mi tmo dur : Nat) : C04.projects (mkAction act mi tmo dur) act = true := by
   cases act <;> simp [mkAction, C04.projects]
 
-theorem set_getElem?_some {α} (l : List α) (mi i : Nat) (x y : α) (h : (l.set mi x)[i]? = some y) :
-    (i = mi ∧ y = x) ∨ (i ≠ mi ∧ l[i]? = some y) := by
-  by_cases hi : i = mi
-  · subst hi
-    left
-    rw [List.getElem?_set] at h
-    split at h
-    · split at h
-      · exact ⟨rfl, (Option.some.inj h).symm⟩
-      · simp at h
-    · exact absurd rfl ‹_›
-  · right
-    refine ⟨hi, ?_⟩
-    rw [List.getElem?_set] at h
-    simpa [Ne.symm hi] using h
-
 theorem Inv04.step {mi : Nat} {s t : Fw σ} (hI : Inv04 s) (h : Step mi s t) : Inv04 t := by
   have hf := h.frame
   refine ⟨by rw [hf.actLen, hf.machines]; exact hI.actLen, by rw [hf.rtLen, hf.machines]; exact hI.rtLen, ?_⟩
